@@ -52,6 +52,7 @@ def run(chk, tier):
         brand_provenance(chk, prog, c)
         root_collect_bound(chk, prog, c)
         constructors_demand_collect(chk, prog, c)
+        arena_not_an_unsizing_target(chk, prog, c)
         common.unsafe_macros(chk, prog, "C12", c)
     res = witness.report(chk, "C12", rule="escape-corpus", floor=80, tier=tier)
     witness.report(chk, "C03", rule="exclusive-access-witness", floor=5, tier=tier)
@@ -319,6 +320,29 @@ def constructors_demand_collect(chk, prog, c, rule="constructors-demand-collect-
                             "every allocation has been freed" % (m, produced, [p["s"] for p in f["predicates"] if "Collect" in p["s"]]),
                      loc="%s:%s" % (f["span"]["f"], f["span"]["l"]))
     chk.floor("arena-constructors[%s]" % c, n, 4)
+
+
+def arena_not_an_unsizing_target(chk, prog, c, rule="arena-is-not-an-unsizing-target"):
+    """Built-in struct unsizing applies to a struct whose last field may be unsized and is the only field that depends
+    on the type parameter: `Box<Arena<R1>>` then coerces to `Box<Arena<R2>>` whenever the two root types (at the single
+    brand the library instantiates, 'static) unsize into each other - a dyn root whose impl exists at 'static only runs
+    inside `mutate`, a no-op-traced dyn root stops the arena tracing. The root type parameter must therefore occur in
+    a field other than the last one (a PhantomData marker does)."""
+    a = prog.adts.get("arena::Arena")
+    if not chk.anchor("arena::Arena", a is not None):
+        return
+    fields = a["variants"][0]["fields"]
+    tps = [g["name"] for g in a.get("generics", []) if g.get("kind") == "type"]
+    import re as _re
+    probs = []
+    for tp in tps:
+        uses = [i for i, f in enumerate(fields) if _re.search(r"(^|[^A-Za-z0-9_])%s($|[^A-Za-z0-9_])" % _re.escape(tp), f.get("ty_s", ""))]
+        if uses and uses == [len(fields) - 1]:
+            probs.append("type parameter %s occurs only in the last field `%s: %s`" % (tp, fields[-1]["name"], fields[-1].get("ty_s")))
+    chk.inst(rule, "arena::Arena[%s]" % c, not probs,
+             detail="%s: Arena<R1> unsize-coerces to Arena<R2> through its root, an obligation checked at the brand 'static "
+                    "only" % "; ".join(probs), loc="%s:%s" % (a["span"]["f"], a["span"]["l"]),
+             sample={"fields": [(f["name"], f.get("ty_s")) for f in fields]})
 
 
 def static_returns(chk, prog, c):
